@@ -21,6 +21,7 @@ type c13Stream struct {
 	RoleOnly bool     `json:"r,omitempty"` // the stream legitimately changes the node's role: only "no crash" is judged
 	Expect   int      `json:"e,omitempty"` // >0: number of reply bytes the attacker connection must receive
 	Follower bool     `json:"f,omitempty"` // the stream (and the witness) go to a follower of a live leader: requests are forwarded
+	Settle   int64    `json:"st,omitempty"` // >0: virtual ns to let pass after the stream (default 300 ms): sweepers and timers run meanwhile
 	After    [][]byte `json:"a,omitempty"` // sent after the stream, each on a connection of its own (readers of what the stream left behind)
 }
 
@@ -78,7 +79,11 @@ func runStream(st *c13Stream) (viol *explore.Violation, obs string, engErr strin
 			}
 			_ = a.Send(ch)
 		}
-		vrt.AdvanceTo(vrt.Elapsed() + 300*ms)
+		settle := int64(300 * ms)
+		if st.Settle > 0 {
+			settle = st.Settle
+		}
+		vrt.AdvanceTo(vrt.Elapsed() + settle)
 		a.Pump()
 		obs = fmt.Sprintf("attacker got %d bytes, closed=%v", len(a.In), a.Closed)
 		for _, b := range st.After {
@@ -810,6 +815,45 @@ func c13SyncHandshakeStreams(quick bool) []c13Stream {
 	return out
 }
 
+// c13AckBesideLogHolderStreams: a hold that claims to come from the log (flag 0x04, with and without the never-log
+// flag), then two acknowledgement-required requests of other LockIds for the same key with every combination of
+// show / update flag, expiry 0 / 3 s and the never-log flag; five seconds pass (wait timeouts, expiries, sweepers).
+func c13AckBesideLogHolderStreams(quick bool) []c13Stream {
+	var out []c13Stream
+	fr := func(seq, flag, id byte, timeout, tflag, expried, eflag uint16) []byte {
+		b := lockFrame(1, flag, 0, timeout, tflag, expried, eflag, 0, 0)
+		b[3], b[36], b[52] = seq, id, 0x32
+		return b
+	}
+	type v struct {
+		flag    byte
+		expried uint16
+		eflag   uint16
+	}
+	var vs []v
+	for _, fl := range []byte{0x03, 0x02, 0x01, 0x00} {
+		for _, e := range []uint16{0, 3} {
+			for _, ef := range []uint16{0, 0x0200} {
+				vs = append(vs, v{fl, e, ef})
+			}
+		}
+	}
+	for _, ef1 := range []uint16{0x0200, 0} {
+		for i, a := range vs {
+			for j, b := range vs {
+				if quick && a.flag != 0x03 && b.flag != 0x03 {
+					continue
+				}
+				st := whole(fmt.Sprintf("bin/ack-beside-log-holder/first-eflag%04x/second%d/third%d", ef1, i, j),
+					fr(1, 0x04, 0x31, 0, 0, 2, ef1), fr(2, a.flag, 1, 1, 0x1000, a.expried, a.eflag), fr(3, b.flag, 2, 1, 0x1000, b.expried, b.eflag))
+				st.Settle = 5 * sec
+				out = append(out, st)
+			}
+		}
+	}
+	return out
+}
+
 // c13NestedValueStreams: an EXECUTE operation whose embedded LOCK carries a value frame of its own. Three lengths
 // meet: the outer frame's, the embedded frame's and the property block's inside it. Every combination of embedded
 // length x property length (inside / at the end of / beyond the embedded frame, beyond the outer frame) x padding
@@ -876,6 +920,8 @@ func c13Group(name string, quick bool) []c13Stream {
 		return c13NestedValueStreams(quick)
 	case "sync-handshake":
 		return c13SyncHandshakeStreams(quick)
+	case "ack-beside-log-holder":
+		return c13AckBesideLogHolderStreams(quick)
 	case "handover":
 		return c13HandoverStreams(quick)
 	case "input-edge":
@@ -896,7 +942,7 @@ func c13Group(name string, quick bool) []c13Stream {
 
 func c13Cases(quick bool) []EnumCase {
 	var out []EnumCase
-	for _, g := range []string{"binary", "text", "split", "pipeline", "keystate", "handover", "input-edge", "follower", "nested-value", "sync-handshake"} {
+	for _, g := range []string{"binary", "text", "split", "pipeline", "keystate", "handover", "input-edge", "follower", "nested-value", "sync-handshake", "ack-beside-log-holder"} {
 		n := len(c13Group(g, quick))
 		chunk := 60
 		for f := 0; f < n; f += chunk {
